@@ -19,7 +19,7 @@ static UNIQUE_ID_COUNTER: AtomicUsize = AtomicUsize::new(0);
 #[cfg(feature = "terohuttunen_proto_vulcan_verif")]
 static UNIQUE_ID_COUNTER: AtomicUsize = AtomicUsize::new(0x5043_0001);
 
-#[derive(Copy, Clone, Hash, PartialEq, Eq, Debug)]
+#[derive(Copy, Clone, Hash, PartialEq, Eq, PartialOrd, Ord, Debug)]
 pub struct VarID(usize);
 
 impl VarID {
